@@ -13,19 +13,20 @@ import (
 
 // opSpec is one operation of a history.
 type opSpec struct {
-	Op     string   `json:"op"`
-	Label  string   `json:"label,omitempty"` // build label / target label
-	Path   string   `json:"path,omitempty"`  // root-relative path
-	Item   string   `json:"item,omitempty"`  // semantic item id
-	Always bool     `json:"always,omitempty"`
-	Dry    bool     `json:"dry,omitempty"`
-	Fail   []string `json:"fail,omitempty"` // labels whose bodies fail in this build
-	Index  bool     `json:"prefer_index,omitempty"`
-	Twice  bool     `json:"run_twice,omitempty"`
-	Reload bool     `json:"reload,omitempty"`               // watch mode: Reload() the Project of the previous operation instead of a fresh Load
-	Keep   bool     `json:"keep_project,omitempty"`         // REPL: Run again on the Project of the previous operation, no reload (only when no code was edited since)
-	DryNil bool     `json:"dry_then_nil_options,omitempty"` // on one loaded project: a dry run, (N=1: Reload,) then Run with nil options
-	N      int      `json:"n,omitempty"`
+	Op      string   `json:"op"`
+	Label   string   `json:"label,omitempty"` // build label / target label
+	Path    string   `json:"path,omitempty"`  // root-relative path
+	Item    string   `json:"item,omitempty"`  // semantic item id
+	Always  bool     `json:"always,omitempty"`
+	Dry     bool     `json:"dry,omitempty"`
+	Fail    []string `json:"fail,omitempty"` // labels whose bodies fail in this build
+	Index   bool     `json:"prefer_index,omitempty"`
+	Twice   bool     `json:"run_twice,omitempty"`
+	Reload  bool     `json:"reload,omitempty"`               // watch mode: Reload() the Project of the previous operation instead of a fresh Load
+	Keep    bool     `json:"keep_project,omitempty"`         // REPL: Run again on the Project of the previous operation, no reload (only when no code was edited since)
+	DryNil  bool     `json:"dry_then_nil_options,omitempty"` // on one loaded project: a dry run, (N=1: Reload,) then Run with nil options
+	N       int      `json:"n,omitempty"`
+	CrashAt int      `json:"crash_at,omitempty"` // the simulated process dies at this scheduler step
 }
 
 // Edit classes.
@@ -70,7 +71,7 @@ func bump(v *valueSpec, n int) {
 	if n == 0 {
 		n = 1
 	}
-	v.V += n
+	v.V += n // a negative n undoes an earlier edit
 }
 
 // applySpecEdit mutates the spec for spec-level edits. It reports whether the op was one.
@@ -232,11 +233,17 @@ func (p *projSpec) applySpecEdit(op *opSpec) bool {
 				}
 			}
 			t.Deps = append(t.Deps, op.Item)
+			for len(t.DepSpell) < len(t.Deps) {
+				t.DepSpell = append(t.DepSpell, 0)
+			}
 		}
 	case "remove-dep":
 		if t := p.target(op.Label); t != nil && len(t.Deps) > 0 {
 			k := op.N % len(t.Deps)
 			t.Deps = append(t.Deps[:k:k], t.Deps[k+1:]...)
+			if k < len(t.DepSpell) {
+				t.DepSpell = append(t.DepSpell[:k:k], t.DepSpell[k+1:]...)
+			}
 		}
 	default:
 		return false
@@ -295,6 +302,17 @@ func (p *projSpec) applyDiskEdit(root string, op *opSpec) {
 			os.MkdirAll(filepath.Dir(filepath.Join(root, names[i])), 0755)
 			os.WriteFile(filepath.Join(root, names[i]), contents[names[i]], 0644)
 		}
+	case "break-source":
+		// replace a source file by a symbolic link to itself: reading it fails with ELOOP
+		full := filepath.Join(root, op.Path)
+		if _, err := os.Lstat(full); err == nil {
+			os.Remove(full)
+			os.Symlink(filepath.Base(full), full)
+		}
+	case "restore-source":
+		full := filepath.Join(root, op.Path)
+		os.Remove(full)
+		os.WriteFile(full, []byte(p.Files[op.Path]), 0644)
 	case "delete-generated":
 		if t := p.target(op.Label); t != nil {
 			for i, g := range t.Generates {
